@@ -41,6 +41,61 @@ def run(chk: Check, proj: Project) -> None:
     chk.rule("S6", "deferred code (render hooks, renderer closures) never renders with the live input context: provided keys are read from a snapshot taken while the provider's scope was active")
     deferred_live_context(chk, "S6", proj)
     s7(chk, proj, w)
+    s8(chk, proj, w)
+
+
+def s8(chk: Check, proj: Project, w) -> None:
+    chk.rule("S8", "inject() is a function of THIS render's context: the inject path stores nothing on the component object or in module state (no memo keyed without the render); the render's provider reference is released only after the last user hook of that render has run")
+    n = 0
+    for mod, q in (("component", "Component.inject"), ("provide", "get_injected_context_var")):
+        m, f = proj.func(mod, q)
+        chk.analysed(fkey(m, f))
+        n += 1
+        stores = []
+        for x in body_walk(f):
+            if isinstance(x, (ast.Attribute, ast.Subscript)) and isinstance(x.ctx, (ast.Store, ast.Del)):
+                root = x
+                while isinstance(root, (ast.Attribute, ast.Subscript)):
+                    root = root.value
+                if isinstance(root, ast.Name) and (root.id in ("self", "cls") or root.id not in {n2.id for n2 in ast.walk(f) if isinstance(n2, ast.Name) and isinstance(n2.ctx, ast.Store)} | set(params(f))):
+                    stores.append(x)
+            if isinstance(x, ast.Call) and isinstance(x.func, ast.Attribute) and x.func.attr in ("setdefault", "update", "append", "add", "__setitem__") and norm(x.func.value).startswith(("self.", "cls.")):
+                stores.append(x)
+            if isinstance(x, ast.Global):
+                stores.append(x)
+        chk.ob("S8", f"{mod}:{q}:memo-free", m.loc(stores[0]) if stores else m.loc(f), not stores,
+               "no store outside the function's locals: the answer is recomputed from the render's context each time" if not stores else
+               f"`{short(enclosing_stmt(stores[0]))}` keeps state across calls on the inject path: a component object rendered again under another provider (or outside any) answers from the first render")
+        # the value returned comes from the lookup, and the lookup receives the input context of this render
+    m, f = proj.func("component", "Component.inject")
+    cs = calls(f, "get_injected_context_var")
+    rets = [r for r in stmts(f) if isinstance(r, ast.Return)]
+    ok = len(cs) == 1 and len(cs[0].args) >= 2 and norm(cs[0].args[1]) == "self.input.context" and any(r.value is cs[0] for r in rets)
+    chk.ob("S8", "component:Component.inject:returns-the-lookup", m.loc(cs[0]) if cs else m.loc(f), ok, "returns get_injected_context_var(name, self.input.context, key, default) directly")
+    # release after last hook
+    r = proj.try_func("component", "Component._render_with_id.on_component_rendered") or proj.try_func("component", "Component._render_impl.on_component_rendered")
+    if r is None:
+        raise AnalysisError("anchor vanished: on_component_rendered closure")
+    mm, g = r
+    chk.analysed(fkey(mm, g))
+    cfg = w.pair.cfgs.get(g)
+    rel = [c for c in calls(g) if last_attr(c.func) == "unregister_provide_reference" or (isinstance(c.func, ast.Attribute) and c.func.attr == "pop" and norm(c.func.value) == "component_context_cache")]
+    chk.floor("S8", len(rel), 2)
+    late = None
+    for c in rel:
+        for n0 in cfg.node_containing(c):
+            for x in cfg.reachable_from([s2 for s2, lab in n0.succ if lab not in ("x", "p")], labels={"n", "T", "F", "b"}):
+                if x.ast is None or x.kind in ("handler",):
+                    continue
+                for y in ast.walk(x.ast) if not isinstance(x.ast, (ast.FunctionDef, ast.With)) else []:
+                    if isinstance(y, ast.Call) and isinstance(y.func, ast.Attribute) and isinstance(y.func.value, ast.Name) and y.func.value.id == "self" and y.func.attr.startswith(("on_", "get_")):
+                        late = (c, y)
+                if isinstance(x.ast, ast.With):
+                    for it in x.ast.items:
+                        pass
+    chk.ob("S8", "component:on_component_rendered:release-after-last-hook", mm.loc(late[1]) if late else mm.loc(g), late is None,
+           "no user hook of the component runs after its provider reference / context entry was released" if late is None else
+           f"`{short(late[1])}` runs after `{short(late[0])}`: when this component held the last reference, the provided data is already deleted, so inject() inside the hook raises KeyError although the provider encloses the component")
 
 
 def s1(chk: Check, proj: Project, w) -> None:
